@@ -124,36 +124,55 @@ fn cmp_case(a: &str, b: &str, op: Op) -> Value {
            "pattern": format!("p{}{}", op_name(op), b), "name": format!("p-{}", a)})
 }
 
-/// Check one (A op B) verdict given the implementation's answer.
+/// Check the four verdicts (A > B, A >= B, A < B, A <= B) of one ordered pair together.  They
+/// must be the four the dewey rule gives; while the letter-weight finding is open they may
+/// instead be exactly the four its recorded variant gives - never a mixture, so an
+/// implementation that answers "equal" where the two models say "less" and "greater" is a
+/// violation, not a known case.
 #[inline]
-fn judge(
-    run: &Run,
-    t: &mut Tally,
-    a: &str,
-    b: &str,
-    op: Op,
-    got: bool,
-    ra: &Ver,
-    rb: &Ver,
-    aa: &Ver,
-    ab: &Ver,
-) {
-    let want = op.holds(dewey::cmp(ra, rb));
+fn judge4(run: &Run, t: &mut Tally, a: &str, b: &str, got: [bool; 4], ra: &Ver, rb: &Ver, aa: &Ver, ab: &Ver) {
+    let o = dewey::cmp(ra, rb);
+    let want = [OPS[0].holds(o), OPS[1].holds(o), OPS[2].holds(o), OPS[3].holds(o)];
     if got == want {
         return;
     }
-    let variant = op.holds(dewey::cmp(aa, ab));
+    let ov = dewey::cmp(aa, ab);
+    let variant = [OPS[0].holds(ov), OPS[1].holds(ov), OPS[2].holds(ov), OPS[3].holds(ov)];
+    let k = (0..4).find(|k| got[*k] != want[*k]).unwrap();
     if got == variant && run.finding_open(FINDING) {
-        t.known(FINDING, || cmp_case(a, b, op));
+        t.known(FINDING, || cmp_case(a, b, OPS[k]));
         return;
     }
     t.violation(Violation::new(
         "cmp",
-        cmp_case(a, b, op),
-        json!(want),
-        json!(got),
+        cmp_case(a, b, OPS[k]),
+        json!({"op": op_name(OPS[k]), "verdict": want[k], "all four (> >= < <=)": want}),
+        json!({"op": op_name(OPS[k]), "verdict": got[k], "all four (> >= < <=)": got}),
         "Pattern verdict differs from the dewey rule",
     ));
+}
+
+/// The four verdicts of `p-<a>` against `p<op><b>`, patterns compiled per call.
+fn four_verdicts(t: &mut Tally, a: &str, b: &str) -> Option<[bool; 4]> {
+    let name = format!("p-{}", a);
+    let mut got = [false; 4];
+    for (k, op) in OPS.iter().enumerate() {
+        t.evals += 1;
+        t.validated += 1;
+        let pat = format!("p{}{}", op_name(*op), b);
+        match guard(|| Pattern::new(&pat).map(|p| p.matches(&name))) {
+            Ok(Ok(g)) => got[k] = g,
+            Ok(Err(e)) => {
+                t.violation(Violation::new("cmp", cmp_case(a, b, *op), json!("compiles"), json!(format!("compile error: {}", e)), "a single-operator pattern must compile"));
+                return None;
+            }
+            Err(m) => {
+                t.violation(Violation::new("cmp", cmp_case(a, b, *op), json!("a verdict"), json!(format!("panic: {}", m)), "matching panicked"));
+                return None;
+            }
+        }
+    }
+    Some(got)
 }
 
 fn compile(b: &str, op: Op) -> Result<Pattern, String> {
@@ -211,22 +230,9 @@ fn sweep_bound(run: &Run, t: &mut Tally, pool: &Pool, bi: usize, a_idx: &[usize]
         });
         match r {
             Ok(v) => {
-                for (k, (op, _)) in pats.iter().enumerate() {
-                    t.evals += 1;
-                    t.validated += 1;
-                    judge(
-                        run,
-                        t,
-                        &pool.strs[ai],
-                        b,
-                        *op,
-                        v[k],
-                        ra,
-                        rb,
-                        &pool.ascii[ai],
-                        &pool.ascii[bi],
-                    );
-                }
+                t.evals += 4;
+                t.validated += 4;
+                judge4(run, t, &pool.strs[ai], b, v, ra, rb, &pool.ascii[ai], &pool.ascii[bi]);
             }
             Err(m) => t.violation(Violation::new(
                 "cmp",
@@ -312,28 +318,8 @@ fn both_placements(run: &Run, t: &mut Tally, a: &str, b: &str) {
         t.nontrivial += 1;
     }
     for (x, y, rx, ry, ax, ay) in [(a, b, &ra, &rb, &aa, &ab), (b, a, &rb, &ra, &ab, &aa)] {
-        for op in OPS {
-            t.evals += 1;
-            t.validated += 1;
-            let pat = format!("p{}{}", op_name(op), y);
-            let name = format!("p-{}", x);
-            match guard(|| Pattern::new(&pat).map(|p| p.matches(&name))) {
-                Ok(Ok(got)) => judge(run, t, x, y, op, got, rx, ry, ax, ay),
-                Ok(Err(e)) => t.violation(Violation::new(
-                    "cmp",
-                    cmp_case(x, y, op),
-                    json!("compiles"),
-                    json!(format!("compile error: {}", e)),
-                    "a single-operator pattern must compile",
-                )),
-                Err(m) => t.violation(Violation::new(
-                    "cmp",
-                    cmp_case(x, y, op),
-                    json!("a verdict"),
-                    json!(format!("panic: {}", m)),
-                    "matching panicked",
-                )),
-            }
+        if let Some(got) = four_verdicts(t, x, y) {
+            judge4(run, t, x, y, got, rx, ry, ax, ay);
         }
     }
 }
@@ -350,24 +336,9 @@ fn replay(run: &Run, doc: &Value) -> Option<Violation> {
             let rb = dewey::tokenise(b, LetterWeight::Rank);
             let aa = dewey::tokenise(a, LetterWeight::AsciiLower);
             let ab = dewey::tokenise(b, LetterWeight::AsciiLower);
-            let pat = format!("p{}{}", op_name(op), b);
-            let name = format!("p-{}", a);
-            match guard(|| Pattern::new(&pat).map(|p| p.matches(&name))) {
-                Ok(Ok(got)) => judge(run, &mut t, a, b, op, got, &ra, &rb, &aa, &ab),
-                Ok(Err(e)) => t.violation(Violation::new(
-                    "cmp",
-                    c.clone(),
-                    json!("compiles"),
-                    json!(format!("compile error: {}", e)),
-                    "",
-                )),
-                Err(m) => t.violation(Violation::new(
-                    "cmp",
-                    c.clone(),
-                    json!("a verdict"),
-                    json!(format!("panic: {}", m)),
-                    "",
-                )),
+            let _ = op;
+            if let Some(got) = four_verdicts(&mut t, a, b) {
+                judge4(run, &mut t, a, b, got, &ra, &rb, &aa, &ab);
             }
         }
         Some("best") => {
@@ -509,14 +480,8 @@ fn main() {
             let rb = dewey::tokenise(b, LetterWeight::Rank);
             let aa = dewey::tokenise(a, LetterWeight::AsciiLower);
             let ab = dewey::tokenise(b, LetterWeight::AsciiLower);
-            let name = format!("p-{}", a);
-            for op in OPS {
-                let pat = format!("p{}{}", op_name(op), b);
-                t.validated += 1;
-                match guard(|| Pattern::new(&pat).map(|p| p.matches(&name))) {
-                    Ok(Ok(got)) => judge(&run, t, a, b, op, got, &ra, &rb, &aa, &ab),
-                    other => t.violation(Violation::new("cmp", cmp_case(a, b, op), json!("a verdict"), json!(format!("{:?}", other.map(|r| r.map_err(|e| e.to_string())))), "long version")),
-                }
+            if let Some(got) = four_verdicts(t, a, b) {
+                judge4(&run, t, a, b, got, &ra, &rb, &aa, &ab);
             }
             t.nontrivial += 1;
         }
@@ -573,18 +538,11 @@ fn main() {
         let idx: Vec<usize> = (0..two.len()).collect();
         par_items(&run, "C01(f) two-site", &idx, |_, ai, t| {
             let a = &two[*ai];
-            let name = format!("p-{}", a);
             for (bi, b) in two.iter().enumerate() {
                 t.states += 1;
                 t.transitions += 1;
-                t.evals += 1;
-                for op in OPS {
-                    let pat = format!("p{}{}", op_name(op), b);
-                    t.validated += 1;
-                    match guard(|| Pattern::new(&pat).map(|p| p.matches(&name))) {
-                        Ok(Ok(got)) => judge(&run, t, a, b, op, got, &toks[*ai].0, &toks[bi].0, &toks[*ai].1, &toks[bi].1),
-                        other => t.violation(Violation::new("cmp", cmp_case(a, b, op), json!("a verdict"), json!(format!("{:?}", other.map(|r| r.map_err(|e| e.to_string())))), "two-site version")),
-                    }
+                if let Some(got) = four_verdicts(t, a, b) {
+                    judge4(&run, t, a, b, got, &toks[*ai].0, &toks[bi].0, &toks[*ai].1, &toks[bi].1);
                 }
                 t.nontrivial += 1;
             }
@@ -620,8 +578,33 @@ fn main() {
     // (e) character sweep: every ASCII character and 64 non-ASCII characters chosen per Unicode
     // behaviour (case mappings into ASCII, digits of other scripts, every white-space character,
     // combining marks, 2/3/4-byte encodings) in seven positions of a version, against eight probes
-    let chars: Vec<char> = mc_core::chars::all().into_iter().filter(|c| !"-<>{}=".contains(*c)).collect();
-    run.bound(format!("(e) {} characters x 7 version shapes x 8 probes x 4 operators x 2 placements", chars.len()));
+    let mut chars: Vec<char> = mc_core::chars::all().into_iter().filter(|c| !"-<>{}=".contains(*c)).collect();
+    chars.extend(['\0', '\n', '\r']);
+    run.bound(format!("(e) {} characters x 7 version shapes x 8 probes x 4 operators x 2 placements; '-' and '=' in the bound only", chars.len()));
+    {
+        // '-' and '=' cannot occur in a package's version (the name splits at the last '-') but
+        // they can in a bound, where they are "other characters": ignored
+        let mut t = Tally::new();
+        for x in ['-', '='] {
+            let mut shapes = vec![format!("1{}1", x), format!("1{}", x), format!("1.{}{}", x, x), format!("1{}nb2", x), format!("1nb{}", x), format!("1{}alpha", x), format!("1.0{}0", x)];
+            if x == '-' {
+                shapes.push("-1".into());
+                shapes.push("-".into());
+            }
+            for b in &shapes {
+                for a in ["", "1", "1.0", "1.1", "1a", "1nb1", "1nb2", "2", "11", "1.0.0", "0", "1alpha"] {
+                    t.states += 1;
+                    t.transitions += 1;
+                    let (ra, rb) = (dewey::tokenise(a, LetterWeight::Rank), dewey::tokenise(b, LetterWeight::Rank));
+                    let (aa, ab) = (dewey::tokenise(a, LetterWeight::AsciiLower), dewey::tokenise(b, LetterWeight::AsciiLower));
+                    if let Some(got) = four_verdicts(&mut t, a, b) {
+                        judge4(&run, &mut t, a, b, got, &ra, &rb, &aa, &ab);
+                    }
+                }
+            }
+        }
+        run.merge(t);
+    }
     par_items(&run, "C01(e) character sweep", &chars, |_, c, t| {
         let shapes = [
             format!("{}", c), format!("1{}", c), format!("{}1", c), format!("1{}1", c), format!("1.{}{}", c, c), format!("1{}nb2", c), format!("1nb{}", c),
